@@ -565,7 +565,7 @@ pub fn c08(o: &Opts) -> i32 {
     ctx.finish(ctx.counter("searches_compared"),
         "the search's reported score must equal plain minimax (no pruning, no cache) over the reference move generator with the engine's public static evaluation at the leaves (mate scores read black-box per loser colour and remaining depth, stalemate 0), and the returned move's child must have that value. Modes: brand-new context+generator; a context pre-used on three other positions; a Game whose context is reused along the successive searches of a game (half-move clock kept below 40-depth). Pools of 1-16 threads. distinct_nontrivial = distinct (position, depth, mode) with >= 2 legal moves",
         &["positions have half-move clock and repetition count far from any draw threshold", "which of several equal-valued moves is returned is free"],
-        &[("searches_compared_fresh-context", 20), ("searches_compared_context-reused-along-a-game", 20), ("searches_compared_context-used-on-other-positions", 5), ("search_cache_hits_observed", 100)])
+        &[("searches_compared_fresh-context", 20), ("searches_compared_context-reused-along-a-game", 20), ("searches_compared_context-used-on-other-positions", 3), ("search_cache_hits_observed", 100)])
 }
 
 // ======================================================================================= C09
